@@ -150,6 +150,9 @@ type c17Req struct {
 	// populated sources: kind:key -> value
 	have map[string]*tref.Val
 	text map[string]string
+	// sources keyed by a field's own name (only consulted by the traceback option)
+	byName map[string]*tref.Val
+	tbUsed int
 }
 
 type c17Member struct {
@@ -163,6 +166,7 @@ func c17Key(kind, key string) string { return kind + ":" + key }
 // c17Expect computes the expected struct for one level. bodyPresent: a JSON body (object) exists at this level.
 // Returns (value, wantErr, unasserted).
 func c17Expect(fields []hmField, rq *c17Req, level string, o conv.Options, bodyLen int, rawURI string, rawBody string) (*tref.Val, bool, bool) {
+	top := level == ""
 	out := tref.Struct()
 	wantErr := false
 	members := map[string]*tref.Val{}
@@ -171,7 +175,18 @@ func c17Expect(fields []hmField, rq *c17Req, level string, o conv.Options, bodyL
 			members[m.key] = m.val
 		}
 	}
-	unset := func(f *gen.FieldT) {
+	unset := func(f *gen.FieldT, atStructEnd bool) {
+		// TracebackRequredOrRootFields: root-level and required fields still unset when the JSON object ends are
+		// looked up once more, by their own name, in path params, query, header, cookie and the body map
+		// (the native scanner only hands unset fields back to Go when ReadHttpValueFallback is set as well: the
+		// lookup is therefore observed, and modelled, under the conjunction of the two options)
+		if atStructEnd && o.TracebackRequredOrRootFields && o.ReadHttpValueFallback && (top || f.Req == gen.ReqRequired) {
+			if v := rq.byName[f.Name]; v != nil {
+				out.Fs = append(out.Fs, tref.Field{ID: f.ID, V: v.Clone()})
+				rq.tbUsed++
+				return
+			}
+		}
 		switch {
 		case f.Req == gen.ReqRequired && !o.WriteRequireField:
 			wantErr = true
@@ -186,7 +201,7 @@ func c17Expect(fields []hmField, rq *c17Req, level string, o conv.Options, bodyL
 			if v := members[f.Name]; v != nil {
 				out.Fs = append(out.Fs, tref.Field{ID: f.ID, V: v.Clone()})
 			} else if f.Req != gen.ReqOptional { // optional fields carry no bit in the requires bitmap
-				unset(f)
+				unset(f, true)
 			}
 			continue
 		}
@@ -214,10 +229,10 @@ func c17Expect(fields []hmField, rq *c17Req, level string, o conv.Options, bodyL
 			if v := members[f.Name]; v != nil {
 				out.Fs = append(out.Fs, tref.Field{ID: f.ID, V: v.Clone()})
 			} else {
-				unset(f)
+				unset(f, true)
 			}
 		default:
-			unset(f) // the body member is ignored
+			unset(f, false) // written (or not) when the struct begins; the body member is ignored
 		}
 	}
 	return out, wantErr, false
@@ -325,11 +340,11 @@ func runC17(c *h.Ctx) {
 			cs.Viol("hm:parse-idl", "err", err)
 			return
 		}
-		ob := cs.R.Intn(32)
-		o := conv.Options{EnableHttpMapping: true, ReadHttpValueFallback: ob&1 != 0, WriteRequireField: ob&2 != 0, WriteDefaultField: ob&4 != 0, WriteOptionalField: ob&8 != 0, NoBase64Binary: ob&16 != 0}
+		ob := cs.R.Intn(64)
+		o := conv.Options{EnableHttpMapping: true, ReadHttpValueFallback: ob&1 != 0, WriteRequireField: ob&2 != 0, WriteDefaultField: ob&4 != 0, WriteOptionalField: ob&8 != 0, NoBase64Binary: ob&16 != 0, TracebackRequredOrRootFields: ob&32 != 0}
 		// ---- the request
 		bodyKind := []string{"json", "json", "json", "form", "none"}[cs.R.Intn(5)]
-		rq := &c17Req{query: url.Values{}, form: url.Values{}, headers: map[string]string{}, cookies: map[string]string{}, params: map[string]string{}, body: map[string][]c17Member{}, have: map[string]*tref.Val{}, text: map[string]string{}}
+		rq := &c17Req{query: url.Values{}, form: url.Values{}, headers: map[string]string{}, cookies: map[string]string{}, params: map[string]string{}, body: map[string][]c17Member{}, have: map[string]*tref.Val{}, text: map[string]string{}, byName: map[string]*tref.Val{}}
 		populate := func(fields []hmField, level string) {
 			for _, hf := range fields {
 				for _, s := range hf.srcs {
@@ -377,6 +392,28 @@ func runC17(c *h.Ctx) {
 		}
 		populate(root, "")
 		populate(sub, "Sub")
+		// values filed under a field's own name: ignored unless the traceback option is on
+		for _, hf := range append(append([]hmField{}, root...), sub...) {
+			if !cs.R.Chance(25) {
+				continue
+			}
+			t := hf.f.T
+			kind := []string{"query", "header", "path"}[cs.R.Intn(3)]
+			v := c17Val(cs.R, t, kind, o.NoBase64Binary)
+			txt := c17Text(cs.R, v, t, o.NoBase64Binary)
+			if txt == "" {
+				continue
+			}
+			switch kind {
+			case "query":
+				rq.query.Set(hf.f.Name, txt)
+			case "header":
+				rq.headers[hf.f.Name] = txt
+			default:
+				rq.params[hf.f.Name] = txt
+			}
+			rq.byName[hf.f.Name] = v
+		}
 		// the same (kind,key) may be shared by the duplicated body field: its typed value is the string form
 		members := func(fields []hmField, level string) {
 			for _, hf := range fields {
@@ -467,7 +504,7 @@ func runC17(c *h.Ctx) {
 			return
 		}
 		cs.Info("request", fmt.Sprintf("url=%s headers=%v cookies=%v params=%v body(%s)=%s data=%s", u, rq.headers, rq.cookies, rq.params, bodyKind, trunc(string(rawBody)), trunc(string(data))))
-		cs.Info("opts", fmt.Sprintf("fallback=%v wr=%v wd=%v wo=%v nob64=%v", o.ReadHttpValueFallback, o.WriteRequireField, o.WriteDefaultField, o.WriteOptionalField, o.NoBase64Binary))
+		cs.Info("opts", fmt.Sprintf("fallback=%v wr=%v wd=%v wo=%v nob64=%v traceback=%v", o.ReadHttpValueFallback, o.WriteRequireField, o.WriteDefaultField, o.WriteOptionalField, o.NoBase64Binary, o.TracebackRequredOrRootFields))
 		// a cookie value may be altered by the standard library (quotes, spaces): what it delivers is what counts
 		for k, v := range rq.cookies {
 			if c, err := sr.Cookie(k); err != nil || c.Value != v {
@@ -569,6 +606,10 @@ func runC17(c *h.Ctx) {
 			return
 		}
 		cs.Cover("request_ok")
+		if o.TracebackRequredOrRootFields && o.ReadHttpValueFallback {
+			cs.Cover("request_ok_with_traceback")
+			cs.CoverN("fields_filled_by_traceback", rq.tbUsed)
+		}
 		for _, hf := range append(append([]hmField{}, root...), sub...) {
 			for i, s := range hf.srcs {
 				if rq.have[c17Key(s.kind, s.key)] != nil {
